@@ -214,7 +214,6 @@ def plan_c07():
 
 
 PLANS = {}
-PLANS["XSB"] = {"level": "exploration", "jobs": lambda tier, seed: life_jobs("XSB", tier)[-2:], "rule": "dev", "evidence": lambda m, r: {"distinct_nontrivial": m["counters"].get("distinct_nontrivial", 0)}, "assumptions": [], "min_evaluations": {"quick": 1, "thorough": 1}, "text": "dev"}
 PLANS["C01"] = plan_core("C01", "c01", "ledger + sanitizers over scheduled executions", memcheck=True,
                          extra_jobs=lambda tier, seed: miri_race_jobs("C01", tier, [("a", "tp"), ("b", "tp"), ("c", "arc"), ("e", "arc")], 6, 256) + miri_min_jobs("C01", tier)
                          + [{"name": "C01.miri.reent", "flavour": "miri", "args": ["reent"], "miri_seeds": T(tier, 2, 16), "timeout": 900},
